@@ -186,6 +186,9 @@ class Ctx:
     def n(self, quick, thorough):
         """Examples for this shard: the tier's total spread over the shards."""
         total = thorough if self.tier == "thorough" else quick
+        scale = float(os.environ.get("VERIF_N_SCALE", "1") or 1)  # sensitivity sweeps only (tools/layout_sensitivity.py)
+        if scale != 1:
+            total = max(self.nshards, int(total * scale))
         return max(1, -(-total // self.nshards))
 
     @property
